@@ -841,7 +841,7 @@ fn long_history(rep: &mut Report, rng: &mut Rng, h: u64, steps: usize) {
                 m.ops[i].state = 0;
             }
         } else {
-            let d = *rng.pick(&[1u32, 1, 2, 4, 5, 8]);
+            let d = if rng.chance(1, 30) { 1_700_000 } else { *rng.pick(&[1u32, 1, 2, 4, 5, 8]) };
             m.su.w.set_ledger(m.su.w.ledger() + d);
             what = format!("ledger +{d}");
             rep.op(format!("[{step}] L{} {what}", m.su.w.ledger()));
